@@ -250,10 +250,20 @@ def gen_C14(g, tier):
         k = g.randint(1, 20)
         seq = [g.choice(bas)[1] for _ in range(k)]
         cs.append(Case('basis.obj %d %s %s' % (k, ' '.join(seq), frs(g.rats(3))), 'cmp', 'basis-sequence'))
+        cs.append(Case('o.c14.history %d %s %s' % (k, ' '.join(seq), frs(g.rats(3))), 'orc', 'basis-sequence'))
         seq2 = seq + [g.choice(['lin', 'cir'])]
         cs.append(Case('o.c14.basis %d %s %s' % (k + 1, ' '.join(seq2), frs(g.rats(3))), 'orc', 'basis-sequence'))
         x = g.rats(3)
         cs.append(Case('o.c14.basis %d %s %s' % (k, ' '.join(seq), frs(x)), 'orc', 'basis-sequence-any', check=small_abs(1e-13, x)))
+    # successive elliptical settings that share one of the two angles (a setting must take effect whatever the previous one was)
+    def ell(o, e): return 'ell %s %s %s' % (dhex(o), dhex(e), ' '.join(dhex(x) for x in (math.cos(2.0 * o), math.sin(2.0 * o), math.cos(2.0 * e), math.sin(2.0 * e))))
+    for _ in range(6 if tier == 'quick' else 200):
+        o1, o2, e1, e2 = g.r.uniform(-4, 4), g.r.uniform(-4, 4), g.r.uniform(-2, 2), g.r.uniform(-2, 2)
+        for seq in ([ell(o1, e1), ell(o2, e1)], [ell(o1, e1), ell(o1, e2)], [ell(o1, e1), 'lin', ell(o2, e1)], [ell(o1, e1), ell(o1, e1)],
+                    [ell(o1, e1), ell(o2, e1), ell(o1, e2), ell(o2, e2)], [ell(o1, e1), 'cir', ell(o1, e2), ell(o2, e2)]):
+            x = g.rats(3)
+            cs.append(Case('basis.obj %d %s %s' % (len(seq), ' '.join(seq), frs(x)), 'cmp', 'basis-sequence-shared-angle'))
+            cs.append(Case('o.c14.history %d %s %s' % (len(seq), ' '.join(seq), frs(x)), 'orc', 'basis-sequence-shared-angle'))
     for _ in range(5 * n):
         cs.append(Case('cross %s' % frs(g.rats(6)), 'cmp', 'cross'))
         cs.append(Case('v 3 dot %s' % frs(g.rats(6)), 'cmp', 'dot'))
